@@ -34,7 +34,7 @@ def run(chk, tier, seed, replay=None):
     rng = random.Random(seed * 7919 + 5)
     graphs = [g for g in corecheck.export_graphs(chk, 4) if g['n'] >= 1]
     if tier == 'quick':
-        corecheck.run_mc(chk, ['Runner_design', 'Runner_dev_skip'],
+        corecheck.run_mc(chk, ['Runner_design', 'Runner_hooks_q', 'Runner_dev_skip'],
                          expect_violation=['Runner_dev_skip'])
         n1, n2 = 170, 130
     else:
